@@ -112,7 +112,7 @@ func (q *Q) SeqQL() string {
 	case "all":
 		return ""
 	case "term", "glob":
-		return q.F + ":" + q.V
+		return q.F + ":" + quoteIfNeeded(q.V, q.Op == "glob")
 	case "exists":
 		return "_exists_:" + q.F
 	case "in":
@@ -139,6 +139,33 @@ func (q *Q) SeqQL() string {
 }
 
 // globMatch implements '*' wildcards (any number of characters), nothing else is special.
+// quoteIfNeeded renders a value as a quoted seq-ql string when it contains characters that are
+// syntax outside quotes (pipe, slash, spaces, ...); plain words stay as they were.
+func quoteIfNeeded(v string, glob bool) string {
+	plain := v != ""
+	for _, c := range v {
+		switch {
+		case c >= 'a' && c <= 'z', c >= 'A' && c <= 'Z', c >= '0' && c <= '9', c == '_', c == '-', c == '.':
+		case c == '*' && glob:
+		default:
+			plain = false
+		}
+	}
+	if plain {
+		return v
+	}
+	var sb strings.Builder
+	sb.WriteByte('"')
+	for _, c := range v {
+		if c == '"' || c == '\\' {
+			sb.WriteByte('\\')
+		}
+		sb.WriteRune(c)
+	}
+	sb.WriteByte('"')
+	return sb.String()
+}
+
 func globMatch(pat, s string) bool {
 	parts := strings.Split(pat, "*")
 	if len(parts) == 1 {
